@@ -66,7 +66,15 @@ class Subroutine(Scope):
         return tmp_list
 
     def resolve_arg_link(self, obj_tree):
-        if (self.args == "") or (len(self.in_children) > 0):
+        if len(self.in_children) > 0:
+            return
+        if self.args == "":
+            # No dummy arguments, any variable with INTENT is missing from the list
+            self.missing_args = [
+                child
+                for child in self.children
+                if child.keywords.count(KEYWORD_ID_DICT["intent"]) > 0
+            ]
             return
         arg_list = self.args.replace(" ", "").split(",")
         arg_list_lower = self.args.lower().replace(" ", "").split(",")
